@@ -1,15 +1,21 @@
 /-
   C20 — Operator lifecycle: startup first, fail-fast, cleanup last, bounded exit. Property theorems only.
 
-  All theorems are about `Reach cfg s` (states reachable by ANY label list of the model
-  `Kopf.Model.C20_Lifecycle`) or about label lists themselves: no bound on length, on the number of
-  ensemble tasks, workers, daemons, or on the moments of failures and stop requests.
-  `cfg.fixed = true` is THE MODEL OF THE CURRENT TREE (since /repo 9ef1bcb the orchestrator monitors its
-  ensemble tasks; `Kopf/Tie/C20.lean` re-checks that against the source on every run); `cfg.fixed = false`
-  is the historical variant without the edge "failed ensemble task → orchestrator". Theorems that do not
-  mention `cfg.fixed` hold for both.
+  All theorems are about `Reach cfg s` / `ReachC cfg s` (states reachable by ANY label list / by any COOPERATIVE
+  label list of the model `Kopf.Model.C20_Lifecycle`) or about label lists themselves: no bound on length, on the
+  number of ensemble tasks, workers, daemons, or on the moments of failures and stop requests.
+  * `cfg.fixed = true` is THE MODEL OF THE CURRENT TREE for the ensemble tasks (since /repo 9ef1bcb the orchestrator
+    monitors them; `Kopf/Tie/C20.lean` re-checks that against the source on every run); `cfg.fixed = false` is the
+    historical variant without the edge "failed ensemble task → orchestrator".
+  * `cfg.coreWatched = false` is THE MODEL OF THE CURRENT TREE for the core task (finding C20-F6: nobody awaits the
+    credentials retriever); `cfg.coreWatched = true` is the variant of the proposed repair (/tmp/fix-C20core.diff).
+  * Cooperativity (tasks honour cancellation at once, waits end when their condition holds, the timed waits E, W, D,
+    C, H are kept) is NOT built into the transition relation: `delay` is always enabled; a run is cooperative iff all
+    its delays satisfy `coopDelay` (`runC`, `ReachC`). Theorems about time say so in their hypotheses.
+  Theorems that do not mention `cfg.fixed` / `cfg.coreWatched` hold for all variants.
 -/
 import Kopf.Lemmas.C20_Trace
+import Kopf.Lemmas.C20_InvT
 namespace Kopf.C20
 
 /-! ### Startup first -/
@@ -80,54 +86,63 @@ theorem ready_after_startup {cfg : Cfg} {s : State} (hr : Reach cfg s) (h : s.re
   have hs := hA.readyStarted h
   exact ⟨hs, hA.startedDone hs⟩
 
-/-! ### Fail-fast: any root task ending stops everything -/
+/-! ### Fail-fast: any root task ending stops everything, and the run call returns -/
 
-/-- Once any root task has ended, `run_tasks` cancels EVERY other root task; it reaches the hung-task
-    phase only when all root tasks have ended, and returns only when all hung tasks are gone as well. -/
-theorem root_failure_stops_all {cfg : Cfg} {s : State} (hr : Reach cfg s) :
-    (∀ s', step cfg s .rtStopRoots = some s' →
-        s'.rt = .stoppingRoots ∧ ∀ r, (s'.st (.root r)).live = true → s'.creq (.root r) = true)
+/-- Once `run_tasks` has begun to stop the root tasks, EVERY other root task that is still alive has been cancelled
+    (the request is pending) or is already in its `finally:`; `run_tasks` reaches the hung-task phase only when all
+    root tasks have ended, and returns only when all hung tasks are gone as well. -/
+theorem root_failure_stops_all {cfg : Cfg} {s : State} (hr : ReachC cfg s) :
+    ((s.rt = .stoppingRoots ∨ s.rt = .cStoppingRoots) → ∀ r, r ≠ .startupCleanup → (s.st (.root r)).live = true →
+        s.creq (.root r) = true ∨ (s.st (.root r)).isStopping = true)
     ∧ (s.rt ≠ .waiting → s.rt ≠ .stoppingRoots → s.rt ≠ .cStoppingRoots → ∀ r, (s.st (.root r)).ended = true)
     ∧ (s.rt = .exited → hungLive s = false) := by
-  have hC := InvC.reach hr
+  have hC := InvC.reach hr.reach
+  have hD := InvD.reachC hr
   refine ⟨?_, hC.hungRoots, ?_⟩
-  · intro s' h
-    simp only [step] at h
-    split at h
-    · cases h
-      refine ⟨rfl, ?_⟩
-      intro r hl
-      simp only [cancelRoots]
-      simp [hl]
-    · cases h
+  · intro hph r hrne hl
+    have hnw : s.rt ≠ .waiting := by rcases hph with h | h <;> simp [h]
+    obtain ⟨t, ht, _⟩ := hC.t0Some hnw
+    rcases hD.a t ht hph r hrne hl with ⟨h, _⟩ | h
+    · exact Or.inl h
+    · exact Or.inr h
   · intro hex
     rw [hungLive_false_iff]
     exact hC.exitedHung hex
 
-/-- …rather than lingering half-alive: while a root task has ended and `run_tasks` still waits, no
-    time can pass, and stopping the remaining root tasks is enabled. (No reachability needed.) -/
-theorem root_failure_no_lingering {cfg : Cfg} {s : State} (r : Root) (he : (s.st (.root r)).ended = true)
-    (hw : s.rt = .waiting) :
-    (∀ n, step cfg s (.delay n) = none) ∧ (step cfg s .rtStopRoots).isSome = true := by
-  have hany : anyRootEnded s = true := (anyRootEnded_iff s).mpr ⟨r, he⟩
-  refine ⟨?_, ?_⟩
-  · intro n
-    have hu : urgent cfg s = true := by
-      unfold urgent rtUrgent
-      simp [hw, hany]
-    simp [step, hu]
-  · simp [step, hw, hany]
+/-- THE RUN CALL RETURNS (progress). After a trigger — a stop was requested, a root task has ended for whatever
+    reason, or `run_tasks` is already stopping — every cooperatively reachable state has a continuation to `exited`
+    that consists of INTERNAL steps only (`internal`: no further action of the environment, no new failure) and is
+    itself cooperative. Together with `no_timelock` and `exit_bound_partial`: the shutdown cannot get stuck, cannot
+    be blocked with the clock stopped, and is over within the bound. -/
+theorem returns {cfg : Cfg} {s : State} (hr : ReachC cfg s) (ht : Triggered s) :
+    ∃ ls s', runI cfg s ls = some s' ∧ s'.rt = .exited :=
+  returns_aux (mu cfg s) s (Nat.le_refl _) hr ht
+
+/-- No timelock: whenever cooperativity forbids time to pass (`urgent`), some internal non-`delay` step is enabled —
+    "time cannot pass" never means "nothing can happen". -/
+theorem no_timelock {cfg : Cfg} {s : State} (hr : ReachC cfg s) (hne : s.rt ≠ .exited)
+    (hu : urgent cfg s = true) :
+    ∃ l s', internal s l = true ∧ (∀ n, l ≠ .delay n) ∧ stepC cfg s l = some s' := by
+  rcases advance_or_wait hr hne with ⟨l, s', h1, h2, h3, _⟩ | ⟨hq, _⟩
+  · exact ⟨l, s', h1, h2, by rw [stepC_eq_step h2]; exact h3⟩
+  · rw [hu] at hq; cases hq
 
 /-! ### Cleanup last -/
 
-/-- The cleanup activity begins only after all other root tasks and the core task have ended — and with
-    them every ensemble task (watch streams, peering) and every worker (hence every handler in flight). -/
+/-- The cleanup activity begins only after all other root tasks and the core task have ended — and with them every
+    ensemble task (watch streams, peering), every worker (hence every handler in flight), and every COOPERATIVE
+    daemon the daemon killer has sent an exit stopper to (unless the killer itself crashed). Daemons that ignore
+    their stopper, daemons spawned after the killer's `finally:`, and orphaned helper tasks may outlive the cleanup:
+    they are "hung tasks" (`no_daemon_alive_at_return`). -/
 theorem cleanup_last {cfg : Cfg} {s : State} (hr : Reach cfg s) (h : s.cleanupBegun = true) :
     (∀ r, r ≠ .startupCleanup → (s.st (.root r)).ended = true) ∧ s.core.live = false
     ∧ (∀ i, i < s.nSubs → (s.st (.sub i)).live = false)
-    ∧ (∀ w o, s.wk w ≠ some (o, .running)) := by
+    ∧ (∀ w o, s.wk w ≠ some (o, .running))
+    ∧ (s.st (.root .daemonKiller) ≠ .failed →
+        ∀ d, d < s.nDaemons → s.stopReq d = true → s.coop d = true → s.dm d = .ended) := by
   have hB := InvB.reach hr
   have hC := InvC.reach hr
+  have hE := InvE.reach (cfg := cfg) hr
   obtain ⟨h1, h2⟩ := hC.cleanupB h
   have hsub : ∀ i, i < s.nSubs → (s.st (.sub i)).live = false := by
     intro i hi
@@ -137,21 +152,28 @@ theorem cleanup_last {cfg : Cfg} {s : State} (hr : Reach cfg s) (h : s.cleanupBe
       have := hB.subOrch i hi hl
       rw [TS.ended_not_active (h1 .orchestrator (by decide))] at this
       cases this
-  refine ⟨h1, h2, hsub, ?_⟩
-  intro w o hw
-  cases o with
-  | root r =>
-    obtain ⟨_, hact, hk⟩ := hB.wkRoot w r hw
-    have hne : r ≠ .startupCleanup := by intro hc; subst hc; simp [Root.kind] at hk
-    rw [TS.ended_not_active (h1 r hne)] at hact
-    cases hact
-  | sub i =>
-    obtain ⟨_, hact, hi⟩ := hB.wkSub w i hw
-    have := hsub i hi
-    rw [TS.active_live hact] at this
-    cases this
+  refine ⟨h1, h2, hsub, ?_, ?_⟩
+  · intro w o hw
+    cases o with
+    | root r =>
+      obtain ⟨_, hact, hk⟩ := hB.wkRoot w r hw
+      have hne : r ≠ .startupCleanup := by intro hc; subst hc; simp [Root.kind] at hk
+      rw [TS.ended_not_active (h1 r hne)] at hact
+      cases hact
+    | sub i =>
+      obtain ⟨_, hact, hi⟩ := hB.wkSub w i hw
+      have := hsub i hi
+      rw [TS.active_live hact] at this
+      cases this
+  · intro hnf d hd hsr hco
+    have h3 := hE.killerDone (h1 .daemonKiller (by decide)) hnf d hd hsr hco
+    have h4 := hE.dmPresent d hd
+    cases hdm : s.dm d with
+    | ended => rfl
+    | running => exact absurd hdm h3
+    | absent => exact absurd hdm h4
 
-/-! ### The run call returns, re-raising the failure -/
+/-! ### The run call re-raises the failure -/
 
 /-- When `operator()` is over it has an outcome; it raises only if some root task failed, and it returns
     normally only if NO root task failed (the cancelled outcome is the operator's own cancellation). -/
@@ -169,42 +191,46 @@ theorem reraise {cfg : Cfg} {s : State} (hr : Reach cfg s) (hex : s.rt = .exited
     rw [hC.resReturned hres] at this
     cases this
 
-/-- Daemons are stopped: none is running when `operator()` is over. -/
-theorem daemons_stopped {cfg : Cfg} {s : State} (hr : Reach cfg s) (hex : s.rt = .exited) :
+/-- No daemon task is alive when `operator()` is over (whoever ended it: its exit stopper, or the hung-task
+    cancellation of `run_tasks`; see `cleanup_last` for what is over BEFORE the cleanup). -/
+theorem no_daemon_alive_at_return {cfg : Cfg} {s : State} (hr : Reach cfg s) (hex : s.rt = .exited) :
     ∀ d, d < s.nDaemons → s.dm d = .ended := by
   intro d hd
   have h1 := ((InvC.reach hr).exitedHung hex).2.1 d hd
-  have h2 := (InvE.reach hr).dmPresent d hd
+  have h2 := (InvE.reach (cfg := cfg) hr).dmPresent d hd
   cases hdm : s.dm d with
   | ended => rfl
   | running => exact absurd hdm h1
   | absent => exact absurd hdm h2
 
-/-- The peering record is withdrawn: a keep-alive task never ends without having sent its `lifetime=0`
-    PATCH, and all of them have ended when `operator()` is over. -/
-theorem peering_withdrawn {cfg : Cfg} {s : State} (hr : Reach cfg s) (i : Nat) (hi : i < s.nSubs)
-    (hk : s.kind i = .pinger) :
-    ((s.st (.sub i)).ended = true → s.withdrawn i = true) ∧ (s.rt = .exited → s.withdrawn i = true) := by
+/-- The peering record: when `operator()` is over every keep-alive task has ended, and none ends without having
+    ATTEMPTED the withdrawal (`lifetime=0` PATCH). FULL CLAUSE "the record is withdrawn" is NOT provable: kopf logs
+    and ignores a failure of that PATCH (`peering.keepalive`'s `finally:`), see `withdrawal_may_fail_witness`. -/
+theorem peering_withdrawal_attempted {cfg : Cfg} {s : State} (hr : Reach cfg s) (hex : s.rt = .exited)
+    (i : Nat) (hi : i < s.nSubs) (hk : s.kind i = .pinger) :
+    (s.st (.sub i)).ended = true ∧ s.withdrawn i = true := by
   have hB := InvB.reach hr
   have hC := InvC.reach hr
-  refine ⟨hB.withdrawnJ i hi hk, ?_⟩
-  intro hex
-  apply hB.withdrawnJ i hi hk
   have hoe := hC.hungRoots (by simp [hex]) (by simp [hex]) (by simp [hex]) .orchestrator
-  have hpres := (InvE.reach hr).subPresent i hi
-  cases hst : s.st (.sub i) with
-  | absent => exact absurd hst hpres
-  | failed | cancelled | done => rfl
-  | waitingFlag | running | stopping f dl =>
-    have := hB.subOrch i hi (by simp [hst])
-    rw [TS.ended_not_active hoe] at this
-    cases this
+  have hpres := (InvE.reach (cfg := cfg) hr).subPresent i hi
+  have hend : (s.st (.sub i)).ended = true := by
+    cases hst : s.st (.sub i) with
+    | absent => exact absurd hst hpres
+    | failed | cancelled | done => rfl
+    | waitingFlag | running | stopping f dl =>
+      have := hB.subOrch i hi (by simp [hst])
+      rw [TS.ended_not_active hoe] at this
+      cases this
+  exact ⟨hend, hB.withdrawnJ i hi hk hend⟩
 
 /-! ### Worker failures -/
 
-/-- A worker that fails while its watcher runs reaches the watcher (`exception_handler`): the watcher is
+/-- FULL CLAUSE ("an object worker failing unrecoverably stops the whole operator") is false of the code for a
+    worker that fails while its watcher is already in its `finally:` — see
+    `worker_failure_during_depletion_dropped_witness` (finding C20-F5). PROVED under the exact guard
+    `s.st o = .running` (the watcher still streams): the failure reaches the watcher (`exception_handler`): it is
     cancelled with `worker_error` set, and a watcher with `worker_error` can only end FAILED. -/
-theorem worker_failure_reaches_watcher {cfg : Cfg} {s s' : State} (hr : Reach cfg s) (w : Nat) (o : Task)
+theorem worker_failure_reaches_watcher_partial {cfg : Cfg} {s s' : State} (hr : Reach cfg s) (w : Nat) (o : Task)
     (hw : s.wk w = some (o, .running)) (ho : s.st o = .running)
     (h : step cfg s (.workerEnd w .failed) = some s') :
     s'.werr o = true ∧ s'.creq o = true ∧
@@ -258,38 +284,64 @@ theorem worker_failure_reaches_watcher {cfg : Cfg} {s s' : State} (hr : Reach cf
       · rw [hs] at hend; cases hend
       · exact hs
 
-/-- A failed worker of a ROOT observer (CRDs, namespaces) stops the whole operator: its watcher IS a root
-    task, so its failure is a root failure — registered in `rootFailed` (hence re-raised, `reraise`) and
-    fail-fast (`root_failure_no_lingering`). For the workers of the ENSEMBLE watchers the chain goes on through
-    `worker_failure_reaches_watcher` (the watcher ends failed) and `stream_failure_stops_all` (a failed ensemble
-    task stops the orchestrator). The name keeps `_partial` from the time when that second link was missing. -/
-theorem worker_failure_stops_all_partial {cfg : Cfg} {s : State} (hr : Reach cfg s) (r : Root)
-    (hw : s.werr (.root r) = true) (he : (s.st (.root r)).ended = true) :
-    s.st (.root r) = .failed ∧ s.rootFailed = true ∧
-    (s.rt = .waiting → ∀ n, step cfg s (.delay n) = none) := by
+/-- A failed worker stops the whole operator (current tree, `fixed`; for a worker that failed while its watcher
+    was streaming, see the `_partial` above): the watcher — a root observer or an ensemble task — can only end
+    FAILED and is not "gone" (HTTP 404 cannot overtake the pending cancellation). For a root observer that is a
+    root failure; for an ensemble task the running orchestrator is cancelled at once and cooperative time cannot
+    pass (then `stream_failure_stops_all`, `root_failure_stops_all`, `returns`). -/
+theorem worker_failure_stops_all {cfg : Cfg} (hfix : cfg.fixed = true) {s : State} (hr : Reach cfg s) :
+    (∀ r, s.werr (.root r) = true → (s.st (.root r)).ended = true →
+        s.st (.root r) = .failed ∧ s.rootFailed = true ∧ (s.rt = .waiting → ∀ n, coopDelay cfg s n = false))
+    ∧ (∀ i, s.werr (.sub i) = true → (s.st (.sub i)).ended = true →
+        s.st (.sub i) = .failed ∧ s.gone i = false ∧
+        (s.st (.root .orchestrator) = .running → s.creq (.root .orchestrator) = true ∧ ∀ n, coopDelay cfg s n = false)) := by
   have hB := InvB.reach hr
-  have hf : s.st (.root r) = .failed := by
-    rcases (hB.werrRoot r hw).2 with ⟨hs, _⟩ | ⟨dl, hs⟩ | hs
-    · rw [hs] at he; cases he
-    · rw [hs] at he; cases he
-    · exact hs
-  exact ⟨hf, hB.rootFailedIff.mpr ⟨r, hf⟩, fun hwt => (root_failure_no_lingering r he hwt).1⟩
+  have hE := InvE.reach (cfg := cfg) hr
+  refine ⟨?_, ?_⟩
+  · intro r hw he
+    have hf : s.st (.root r) = .failed := by
+      rcases (hB.werrRoot r hw).2 with ⟨hs, _⟩ | ⟨dl, hs⟩ | hs
+      · rw [hs] at he; cases he
+      · rw [hs] at he; cases he
+      · exact hs
+    exact ⟨hf, hB.rootFailedIff.mpr ⟨r, hf⟩, fun hwt => (root_ended_urgent r he hwt).1⟩
+  · intro i hw he
+    obtain ⟨hi, hdisj⟩ := hB.werrSub i hw
+    have hf : s.st (.sub i) = .failed := by
+      rcases hdisj with ⟨hs, _⟩ | ⟨dl, hs⟩ | hs
+      · rw [hs] at he; cases he
+      · rw [hs] at he; cases he
+      · exact hs
+    have hg := hE.werrNotGone i hw
+    refine ⟨hf, hg, ?_⟩
+    intro horch
+    have hc := hE.fixedEdge hfix i hi hf hg horch
+    refine ⟨hc, ?_⟩
+    intro n
+    have hu : urgent cfg s = true := by
+      unfold urgent
+      have : Root.all.any (fun r => taskUrgent s (.root r)) = true := by
+        rw [List.any_eq_true]
+        exact ⟨.orchestrator, Root.mem_all _, by simp [taskUrgent, horch, hc]⟩
+      simp [this]
+    simp [coopDelay, hu]
 
 /-! ### Bounded exit -/
 
-/-- From the moment `run_tasks` begins to stop the root tasks (`t0`: a root task ended, or `operator()` was
-    cancelled) the operator is gone within the sum of the grace periods: `E` (worker depletion,
-    `settings.queueing.exit_timeout`) + `W` (peering withdrawal) + `D` (exit stoppers of daemons) + `C`
-    (cleanup activity) + `H` (hung tasks, 5 s). The clock of the model cannot pass that bound before the exit.
-    ASSUMPTIONS built into the model's `delay`: tasks honour cancellation at once, the cleanup activity
-    takes at most `C` (kopf sets no limit), one stop trigger per run. PARTIAL w.r.t. the property's
-    "bounded grace periods": a thread that never returns is not modelled. -/
-theorem exit_bound {cfg : Cfg} {s : State} (hr : Reach cfg s) (t : Nat) (ht : s.t0 = some t) :
+/-- PARTIAL w.r.t. the property's "within the bounded grace periods": proved for COOPERATIVE runs only (`ReachC`:
+    every `delay` satisfies `coopDelay` — tasks honour cancellation at once, the cleanup activity takes at most `C`,
+    kopf sets no limit for it; one stop trigger per run). From the moment `run_tasks` begins to stop the root tasks
+    (`t0`: a root task ended, or `operator()` was cancelled) the operator is gone within
+    `E` (worker depletion, `settings.queueing.exit_timeout`) + `W` (peering withdrawal) + `D` (exit stoppers of
+    daemons) + `C` (cleanup activity) + `H` (hung tasks, 5 s). For a NON-cooperative run nothing bounds the exit
+    (`aiotasks.stop` has no timeout): `noncooperative_exit_unbounded_witness`. The time between a failure and `t0` is
+    covered by `failure_to_stop_bound_partial`. -/
+theorem exit_bound_partial {cfg : Cfg} {s : State} (hr : ReachC cfg s) (t : Nat) (ht : s.t0 = some t) :
     s.now ≤ t + cfg.E + cfg.W + cfg.D + cfg.C + cfg.H ∧
     (∀ x, s.exitAt = some x → x ≤ t + cfg.E + cfg.W + cfg.D + cfg.C + cfg.H) := by
-  have hC := InvC.reach hr
-  have hD := InvD.reach hr
-  have hE := InvE.reach hr
+  have hC := InvC.reach hr.reach
+  have hD := InvD.reachC hr
+  have hE := InvE.reach (cfg := cfg) hr.reach
   have hnow : s.now ≤ t + G cfg + cfg.C + cfg.H := by
     cases hrt : s.rt with
     | waiting => have := (hC.waitingEarly hrt).2.2; rw [ht] at this; cases this
@@ -305,82 +357,90 @@ theorem exit_bound {cfg : Cfg} {s : State} (hr : Reach cfg s) (t : Nat) (ht : s.
   have := (hE.exitNow x hx).2
   omega
 
-/-! ### The stream / worker failure clause -/
+/-- PARTIAL (cooperative runs, like `exit_bound_partial`): FROM THE FAILURE. `tFail` is the moment of the first
+    failure the code escalates (`markFail`: a failed startup handler, a failing stream or task of a root observer,
+    a worker failing under a streaming watcher; an ensemble task in the variant `fixed`, the core task in the variant
+    `coreWatched`). `run_tasks` stops waiting within `2·(E+W+D)` of it (the failing task's own `finally:`, then — for
+    an ensemble task — the orchestrator stopping the other streams), hence the operator is gone within
+    `3·(E+W+D) + C + H` of the failure. This is the bound the oracle of the harness uses for runs with a failure. -/
+theorem failure_to_stop_bound_partial {cfg : Cfg} {s : State} (hr : ReachC cfg s) (tf : Nat)
+    (htf : s.tFail = some tf) :
+    (s.rt = .waiting → s.now ≤ tf + 2 * (cfg.E + cfg.W + cfg.D))
+    ∧ (∀ t, s.t0 = some t → t ≤ tf + 2 * (cfg.E + cfg.W + cfg.D))
+    ∧ s.now ≤ tf + 3 * (cfg.E + cfg.W + cfg.D) + cfg.C + cfg.H := by
+  have hT := InvT.reachC hr
+  have hT0 := InvT0.reachC hr
+  have hC := InvC.reach hr.reach
+  have h1 : s.rt = .waiting → s.now ≤ tf + 2 * (cfg.E + cfg.W + cfg.D) := by
+    intro hw; have := hT.bound tf hw htf; unfold G at this; exact this
+  have h2 : ∀ t, s.t0 = some t → t ≤ tf + 2 * (cfg.E + cfg.W + cfg.D) := by
+    intro t ht; have := hT0 t tf ht htf; unfold G at this; exact this
+  refine ⟨h1, h2, ?_⟩
+  by_cases hw : s.rt = .waiting
+  · have := h1 hw; omega
+  · obtain ⟨t, ht, _⟩ := hC.t0Some hw
+    have := h2 t ht
+    have := (exit_bound_partial hr t ht).1
+    omega
 
-/-- HISTORICAL: the model of the code BEFORE /repo 9ef1bcb (no edge from the ensemble tasks to the
-    orchestrator), with the default grace periods in ticks of 1/64 s. -/
-def cfgAsIs : Cfg := { fixed := false, E := 128, W := 264, D := 0, C := 0, H := 320 }
+/-! ### The stream / worker failure clause (ensemble tasks) -/
 
-/-- startup succeeds, the orchestrator starts a resource watcher, its stream fails (fatal ERROR event →
-    `WatchingError`), the watcher task ends FAILED -/
-def lingerPrefix : List Label :=
+/-- HISTORICAL: the model of the code BEFORE /repo 9ef1bcb (no edge from the ensemble tasks to the orchestrator),
+    with the default grace periods in ticks of 1/64 s. -/
+def cfgHistorical : Cfg := { fixed := false, coreWatched := false, E := 128, W := 264, D := 64, C := 32, H := 320 }
+
+/-- THE CURRENT TREE: what `Kopf/Tie/C20.lean` proves equal to the facts extracted from the source. -/
+def cfgHead : Cfg := headCfg 128 264 64 32 320
+
+/-- the tree with the proposed repair of C20-F6 (/tmp/fix-C20core.diff): a root task awaits the core tasks -/
+def cfgProposed : Cfg := { cfgHead with coreWatched := true }
+
+/-- startup succeeds, every guarded task and the core task enter -/
+def startAll : List Label :=
   [.scStartupBegin, .scStartupEnd .none, .setStarted, .ready,
    .enter .daemonKiller, .coreEnter, .enter .poster, .enter .admChain, .enter .admValidating, .enter .admMutating,
-   .enter .admServer, .enter .resObserver, .enter .nsObserver, .enter .orchestrator, .subSpawn .watcher,
-   .subStopping 0 true, .subEnd 0 .failed]
+   .enter .admServer, .enter .resObserver, .enter .nsObserver, .enter .orchestrator]
+
+/-- … the orchestrator starts a resource watcher, its stream fails (fatal ERROR event → `WatchingError`), the
+    watcher task ends FAILED -/
+def lingerPrefix : List Label := startAll ++ [.subSpawn .watcher, .subStopping 0 true, .subEnd 0 .failed]
 
 /-- HISTORICAL WITNESS (finding F3, repaired by /repo 9ef1bcb) — about the OLD code, i.e. the variant
-    `fixed := false`, NOT about the current tree: there, after a watcher task of the ensemble had failed, ANY
-    amount of time could pass with the operator still waiting, every root task alive, nothing cancelled, no
+    `fixed := false`, NOT about the current tree: there, after a watcher task of the ensemble had failed, ANY amount
+    of time could pass COOPERATIVELY with the operator still waiting, every root task alive, nothing cancelled, no
     outcome. Kept to show that the hypothesis `cfg.fixed = true` of `stream_failure_stops_all` is not decorative. -/
 theorem historical_stream_failure_lingers_witness (n : Nat) (hn : 0 < n) :
-    ∃ s, run cfgAsIs init (lingerPrefix ++ [.delay n]) = some s
+    ∃ s, runC cfgHistorical init (lingerPrefix ++ [.delay n]) = some s
       ∧ s.st (.sub 0) = .failed ∧ s.rt = .waiting ∧ s.result = none ∧ s.now = n
       ∧ (∀ r, (s.st (.root r)).live = true) ∧ (∀ r, s.creq (.root r) = false) := by
-  have hp : ∃ s0, run cfgAsIs init lingerPrefix = some s0 ∧ quiet s0 = true ∧ urgent cfgAsIs s0 = false
+  have hp : ∃ s0, runC cfgHistorical init lingerPrefix = some s0 ∧ quiet s0 = true ∧ urgent cfgHistorical s0 = false
       ∧ s0.rt = .waiting ∧ s0.st (.sub 0) = .failed ∧ s0.result = none ∧ s0.now = 0
       ∧ (∀ r, (s0.st (.root r)).live = true) ∧ (∀ r, s0.creq (.root r) = false) := by
     refine ⟨_, rfl, by decide, by decide, rfl, by decide, rfl, rfl, ?_, ?_⟩ <;> (intro r; cases r <;> decide)
   obtain ⟨s0, h0, hq, hu, hw, hf, hres, hnow, hl, hc⟩ := hp
   refine ⟨{ s0 with now := s0.now + n }, ?_, hf, hw, hres, by simp [hnow], hl, hc⟩
-  rw [run_append, h0]
-  simp only [Option.bind_some, run]
+  rw [runC_append, h0]
+  simp only [Option.bind_some, runC]
   rw [quiet_delay hq hu (by simp [hw]) n hn]
 
-/-- A failed watch stream of a ROOT observer stops the whole operator (for the ensemble's streams see
-    `stream_failure_stops_all`; the name keeps `_partial` from the time when only this part held).
-    The streams the root observers run themselves (CRD / namespace watch): such a task, once in its
-    `finally:` after a stream failure (`stopping true`), can only end FAILED, and that is a root failure:
-    registered (`rootFailed`), fail-fast (no time passes while `run_tasks` waits). -/
-theorem stream_failure_stops_all_partial {cfg : Cfg} {s s' : State} (r : Root) (hk : r.kind = .observer)
-    (dl : Option Nat) (hs : s.st (.root r) = .stopping true dl) (how : TS)
-    (h : step cfg s (.rootEnd r how) = some s') :
-    how = .failed ∧ s'.st (.root r) = .failed ∧ s'.rootFailed = true ∧
-    (s'.rt = .waiting → ∀ n, step cfg s' (.delay n) = none) := by
-  simp only [step, hk] at h
-  split at h
-  · simp only [hs] at h
-    split at h
-    · split at h
-      · rename_i hh
-        cases h
-        simp only [failTS] at hh
-        subst hh
-        refine ⟨rfl, by simp, by simp, ?_⟩
-        intro hw
-        exact (root_failure_no_lingering r (by simp) hw).1
-      · cases h
-    · cases h
-  · cases h
-
 /-- THE CLAIM for the current tree (`cfg.fixed = true`): a failed ensemble task (watch stream, peering watch,
-    keep-alive — or a watcher failed by its worker; NOT a watcher whose resource is merely gone, HTTP 404)
-    cancels the running orchestrator at once (no time passes), the orchestrator then can only end FAILED,
-    i.e. a root failure: everything is stopped (`root_failure_stops_all`), and `operator()` does not return
-    normally. -/
+    keep-alive — or a watcher failed by its worker; NOT a watcher whose resource is merely gone, HTTP 404) cancels
+    the running orchestrator at once (no cooperative time passes), the orchestrator then can only end FAILED, i.e. a
+    root failure: everything is stopped (`root_failure_stops_all`), the run call returns (`returns`, within
+    `failure_to_stop_bound_partial`), and not normally. -/
 theorem stream_failure_stops_all {cfg : Cfg} (hfix : cfg.fixed = true) {s : State} (hr : Reach cfg s) :
     (∀ i s', s.st (.root .orchestrator) = .running → s.gone i = false →
         step cfg s (.subEnd i .failed) = some s' →
-        s'.creq (.root .orchestrator) = true ∧ s'.orchErr = true ∧ ∀ n, step cfg s' (.delay n) = none)
+        s'.creq (.root .orchestrator) = true ∧ s'.orchErr = true ∧ ∀ n, coopDelay cfg s' n = false)
     ∧ (∀ i, i < s.nSubs → s.st (.sub i) = .failed → s.gone i = false → s.st (.root .orchestrator) = .running →
-        s.creq (.root .orchestrator) = true ∧ ∀ n, step cfg s (.delay n) = none)
+        s.creq (.root .orchestrator) = true ∧ ∀ n, coopDelay cfg s n = false)
     ∧ (s.orchErr = true → (s.st (.root .orchestrator)).ended = true → s.st (.root .orchestrator) = .failed)
     ∧ (s.orchErr = true → s.rt = .exited → s.result = some .raised ∨ s.result = some .cancelled) := by
   have hB := InvB.reach hr
   have hC := InvC.reach hr
-  have hE := InvE.reach hr
+  have hE := InvE.reach (cfg := cfg) hr
   have urgent_of : ∀ t : State, t.st (.root .orchestrator) = .running → t.creq (.root .orchestrator) = true →
-      ∀ n, step cfg t (.delay n) = none := by
+      ∀ n, coopDelay cfg t n = false := by
     intro t h1 h2 n
     have hu : urgent cfg t = true := by
       unfold urgent
@@ -388,7 +448,7 @@ theorem stream_failure_stops_all {cfg : Cfg} (hfix : cfg.fixed = true) {s : Stat
         rw [List.any_eq_true]
         exact ⟨.orchestrator, Root.mem_all _, by simp [taskUrgent, h1, h2]⟩
       simp [this]
-    simp [step, hu]
+    simp [coopDelay, hu]
   refine ⟨?_, ?_, ?_, ?_⟩
   · intro i s' horch hgone h
     simp only [step] at h
@@ -455,71 +515,230 @@ theorem gone_is_not_a_failure {cfg : Cfg} {s s' : State} (i : Nat) (hg : s.gone 
     · cases h
   · cases h
 
-/-! ### Non-vacuity: the hypotheses are met by non-trivial reachable states -/
+/-! ### The core task (credentials retriever): finding C20-F6 -/
 
-/-- a complete run: startup, ready, an observer and the orchestrator with a watcher, a worker and a daemon, a
-    stop flag, everything stopped in order, the cleanup activity, hung daemon, normal return -/
-def fullRun : List Label :=
-  [.scStartupBegin, .scStartupEnd .none, .setStarted, .ready,
-   .enter .daemonKiller, .coreEnter, .enter .poster, .enter .admChain, .enter .admValidating, .enter .admMutating,
-   .enter .admServer, .enter .resObserver, .enter .nsObserver, .enter .orchestrator,
-   .act (.task (.root .resObserver)), .subSpawn .watcher, .subSpawn .pinger, .act (.task (.sub 0)),
-   .workerStart (.sub 0), .act (.worker 0), .daemonSpawn, .delay 320,
+/-- … the core task fails (the login handlers fail for good: `ActivityError`) -/
+def coreFail : List Label := startAll ++ [.coreEnd .failed]
+
+/-- WITNESS about the CURRENT tree (`cfgHead`, finding C20-F6): after the core task has failed, ANY amount of time can
+    pass cooperatively with the operator still waiting — every root task alive, nothing cancelled, no outcome, and
+    the failure is not even one the code escalates (`tFail = none`). The property's "any root task failing
+    unrecoverably … stops the whole operator" does not hold for this essential task. -/
+theorem core_failure_lingers_witness (n : Nat) (hn : 0 < n) :
+    ∃ s, runC cfgHead init (coreFail ++ [.delay n]) = some s
+      ∧ s.core = .failed ∧ s.rt = .waiting ∧ s.result = none ∧ s.now = n ∧ s.tFail = none
+      ∧ (∀ r, (s.st (.root r)).live = true) ∧ (∀ r, s.creq (.root r) = false) := by
+  have hp : ∃ s0, runC cfgHead init coreFail = some s0 ∧ quiet s0 = true ∧ urgent cfgHead s0 = false
+      ∧ s0.rt = .waiting ∧ s0.core = .failed ∧ s0.result = none ∧ s0.now = 0 ∧ s0.tFail = none
+      ∧ (∀ r, (s0.st (.root r)).live = true) ∧ (∀ r, s0.creq (.root r) = false) := by
+    refine ⟨_, rfl, by decide, by decide, rfl, by decide, rfl, rfl, rfl, ?_, ?_⟩ <;> (intro r; cases r <;> decide)
+  obtain ⟨s0, h0, hq, hu, hw, hf, hres, hnow, htf, hl, hc⟩ := hp
+  refine ⟨{ s0 with now := s0.now + n }, ?_, hf, hw, hres, by simp [hnow], htf, hl, hc⟩
+  rw [runC_append, h0]
+  simp only [Option.bind_some, runC]
+  rw [quiet_delay hq hu (by simp [hw]) n hn]
+
+/-- … the operator lingers for 10 s, is then stopped by its stop flag, and everything ends in order -/
+def coreFailEnd : List Label := coreFail ++
+  [.delay 640, .setStopFlag, .rootEnd .stopFlag .done, .rtStopRoots,
+   .rootEnd .ultimate .done, .rootEnd .coreWatcher .cancelled, .scWake, .rootEnd .poster .cancelled,
+   .rootEnd .admChain .cancelled, .rootEnd .admValidating .cancelled, .rootEnd .admMutating .cancelled,
+   .rootEnd .admServer .cancelled, .rootEnd .nsObserver .cancelled, .rootEnd .resObserver .cancelled,
+   .rootStopping .orchestrator false, .rootEnd .orchestrator .cancelled,
+   .rootEnd .daemonKiller .cancelled, .scWaitRootsEnd, .scStopCore, .scCoreStopped,
+   .rootEnd .startupCleanup .failed, .rtHungWait, .rtStopHung, .rtExit .raised]
+
+/-- WITNESS about the CURRENT tree, second half of C20-F6: when such an operator is finally stopped (here by its stop
+    flag), the core task's error is re-raised BEFORE the cleanup activity — the cleanup handlers never run. -/
+theorem core_failure_skips_cleanup_witness :
+    ∃ s, runC cfgHead init coreFailEnd = some s ∧ s.rt = .exited ∧ s.result = some .raised
+      ∧ s.cleanupBegun = false ∧ s.t0 = some 640 :=
+  ⟨_, rfl, by decide, by decide, by decide, by decide⟩
+
+/-- THE CLAIM for the variant `coreWatched` (the proposed repair): a failed core task makes the core tasks watcher
+    — a ROOT task — fail at once: while that watcher runs no cooperative time passes and its failing is enabled; it can
+    end only FAILED (or cancelled, when a stop is already under way); if it is not running any more, a root task
+    has already ended (`Triggered`). Either way everything is stopped (`root_failure_stops_all`), the run call returns
+    (`returns`) and raises; and the cleanup activity is NOT skipped: the error is re-raised after it. -/
+theorem core_failure_stops_all {cfg : Cfg} (hcw : cfg.coreWatched = true) {s : State} (hr : Reach cfg s)
+    (hc : s.core = .failed) :
+    (s.st (.root .coreWatcher) = .running → s.rt ≠ .exited →
+        (∀ n, coopDelay cfg s n = false) ∧ (step cfg s (.rootEnd .coreWatcher .failed)).isSome = true)
+    ∧ (∀ how s', s.creq (.root .coreWatcher) = false → step cfg s (.rootEnd .coreWatcher how) = some s' →
+        how = .failed ∧ s'.rootFailed = true)
+    ∧ (s.st (.root .coreWatcher) ≠ .running → Triggered s)
+    ∧ (s.st (.root .coreWatcher) = .failed →
+        s.rootFailed = true ∧ (s.rt = .exited → s.result = some .raised ∨ s.result = some .cancelled))
+    ∧ (∀ s', s.sc = .coreStopping .none → step cfg s .scCoreStopped = some s' → s'.cleanupBegun = true) := by
+  have hB := InvB.reach hr
+  have hC := InvC.reach hr
+  have hE := InvE.reach (cfg := cfg) hr
+  refine ⟨?_, ?_, ?_, ?_, ?_⟩
+  · intro hrun hne
+    refine ⟨?_, by simp [step, hne, Root.kind, hrun, hcw, hc]⟩
+    intro n
+    have hu : urgent cfg s = true := by unfold urgent; simp [hcw, hc, hrun]
+    simp [coopDelay, hu]
+  · intro how s' hcr h
+    simp only [step, Root.kind] at h
+    split at h
+    · split at h
+      · rename_i hh; rw [hcr] at hh; exact absurd hh.2.2 (by simp)
+      · split at h
+        · rename_i hh; cases h; exact ⟨hh.2.1, by simp [hh.2.1]⟩
+        · cases h
+    · cases h
+  · intro hnr
+    rcases hE.coreWatcherSt with h | h
+    · exact absurd h hnr
+    · exact Or.inr (Or.inl ((anyRootEnded_iff s).mpr ⟨_, h⟩))
+  · intro hf
+    have hrf : s.rootFailed = true := hB.rootFailedIff.mpr ⟨.coreWatcher, hf⟩
+    refine ⟨hrf, ?_⟩
+    intro hex
+    obtain ⟨r, hres⟩ := hC.resultSome hex
+    cases r with
+    | raised => exact Or.inl hres
+    | cancelled => exact Or.inr hres
+    | returned => have := hC.resReturned hres; rw [hrf] at this; cases this
+  · intro s' hsc h
+    simp only [step, hsc] at h
+    split at h
+    · rw [if_neg (by simp [hcw])] at h
+      cases h; rfl
+    · cases h
+
+/-! ### What the code does NOT guarantee (witnesses about the current tree) -/
+
+/-- a complete run: startup, ready, an observer and the orchestrator with a watcher and a keep-alive task, a worker,
+    a cooperative and a stubborn daemon, a stop flag, everything stopped in order, the cleanup activity, the hung
+    daemon cancelled, normal return. `wok`: whether the withdrawal PATCH succeeds. -/
+def fullRun (wok : Bool) : List Label :=
+  startAll ++
+  [.act (.task (.root .resObserver)), .subSpawn .watcher, .subSpawn .pinger, .act (.task (.sub 0)),
+   .workerStart (.sub 0), .act (.worker 0), .daemonSpawn true, .daemonSpawn false, .delay 320,
    .setStopFlag, .rootEnd .stopFlag .done, .rtStopRoots,
-   .rootEnd .ultimate .done, .scWake, .rootEnd .poster .cancelled, .rootEnd .admChain .cancelled,
-   .rootEnd .admValidating .cancelled, .rootEnd .admMutating .cancelled, .rootEnd .admServer .cancelled,
-   .rootEnd .nsObserver .cancelled, .rootStopping .resObserver false, .rootEnd .resObserver .cancelled,
-   .rootStopping .daemonKiller false, .rootStopping .orchestrator false,
-   .subStopping 0 false, .subStopping 1 false, .withdraw 1, .subEnd 1 .cancelled,
+   .rootEnd .ultimate .done, .rootEnd .coreWatcher .cancelled, .scWake, .rootEnd .poster .cancelled,
+   .rootEnd .admChain .cancelled, .rootEnd .admValidating .cancelled, .rootEnd .admMutating .cancelled,
+   .rootEnd .admServer .cancelled, .rootEnd .nsObserver .cancelled, .rootStopping .resObserver false,
+   .rootEnd .resObserver .cancelled, .rootStopping .daemonKiller false, .rootStopping .orchestrator false,
+   .subStopping 0 false, .subStopping 1 false, .withdraw 1 wok, .subEnd 1 .cancelled, .daemonExit 0,
    .delay 64, .workerEnd 0 .done, .subEnd 0 .cancelled, .rootEnd .orchestrator .cancelled,
    .rootEnd .daemonKiller .cancelled, .scWaitRootsEnd, .scStopCore, .coreEnd .cancelled, .scCoreStopped,
    .delay 32, .scCleanupEnd .none, .vaultClosed, .rootEnd .startupCleanup .done,
-   .rtHungWait, .delay 320, .rtStopHung, .daemonExit 0, .rtExit .returned]
+   .rtHungWait, .delay 320, .rtStopHung, .daemonExit 1, .rtExit .returned]
 
-def cfgDemo : Cfg := { fixed := false, E := 128, W := 264, D := 64, C := 32, H := 320 }
+/-- WITNESS: the FULL clause "the peering record is withdrawn on exit" does not hold — the withdrawal PATCH may fail
+    (`withdraw 1 false`); `peering.keepalive` logs that and ends normally, the operator returns normally. -/
+theorem withdrawal_may_fail_witness :
+    ∃ s, runC cfgHead init (fullRun false) = some s ∧ s.rt = .exited ∧ s.result = some .returned
+      ∧ s.kind 1 = .pinger ∧ s.withdrawn 1 = true ∧ s.withdrawnOk 1 = false :=
+  ⟨_, rfl, by decide, by decide, by decide, by decide, by decide⟩
 
-example : ∃ s, run cfgDemo init fullRun = some s ∧ s.rt = .exited ∧ s.result = some .returned
+/-- a worker of the CRD observer fails AFTER its watcher has entered its `finally:` (depletion of the workers) -/
+def deplRun : List Label :=
+  startAll ++
+  [.workerStart (.root .resObserver),
+   .setStopFlag, .rootEnd .stopFlag .done, .rtStopRoots, .rootStopping .resObserver false, .workerEnd 0 .failed,
+   .rootEnd .resObserver .cancelled,
+   .rootEnd .ultimate .done, .rootEnd .coreWatcher .cancelled, .scWake, .rootEnd .poster .cancelled,
+   .rootEnd .admChain .cancelled, .rootEnd .admValidating .cancelled, .rootEnd .admMutating .cancelled,
+   .rootEnd .admServer .cancelled, .rootEnd .nsObserver .cancelled, .rootStopping .orchestrator false,
+   .rootEnd .orchestrator .cancelled, .rootEnd .daemonKiller .cancelled, .scWaitRootsEnd, .scStopCore,
+   .coreEnd .cancelled, .scCoreStopped, .scCleanupEnd .none, .vaultClosed, .rootEnd .startupCleanup .done,
+   .rtHungWait, .rtStopHung, .rtExit .returned]
+
+/-- WITNESS (finding C20-F5): the FULL clause "an object worker failing unrecoverably stops the whole operator /
+    is re-raised" does not hold for a worker that fails while its watcher is already depleting its workers: the
+    failure is only logged (`_task_done_callback` → `exception_handler` cancels an already cancelled task), nothing is
+    marked, the operator returns NORMALLY. (During a shutdown there is nothing left to stop; what is lost is the
+    re-raise.) -/
+theorem worker_failure_during_depletion_dropped_witness :
+    ∃ s, runC cfgHead init deplRun = some s ∧ s.rt = .exited ∧ s.result = some .returned
+      ∧ s.wk 0 = some (.root .resObserver, .failed) ∧ s.rootFailed = false ∧ s.tFail = none :=
+  ⟨_, rfl, by decide, by decide, by decide, by decide, by decide⟩
+
+/-- WITNESS: without cooperativity NOTHING bounds the exit — `run_tasks` awaits the cancelled root tasks without any
+    timeout (`aiotasks.stop`), so a task that does not honour its cancellation (here: all of them, for `n` ticks) keeps
+    `operator()` from returning for as long as it likes. The run is accepted by `run` but not by `runC`. -/
+theorem noncooperative_exit_unbounded_witness (n : Nat) (hn : 0 < n) :
+    ∃ s0 s, run cfgHead init [.setStopFlag, .rootEnd .stopFlag .done, .rtStopRoots] = some s0
+      ∧ coopDelay cfgHead s0 n = false
+      ∧ step cfgHead s0 (.delay n) = some s
+      ∧ s.t0 = some 0 ∧ s.now = n ∧ s.rt = .stoppingRoots ∧ s.result = none := by
+  have hp : ∃ s0, run cfgHead init [.setStopFlag, .rootEnd .stopFlag .done, .rtStopRoots] = some s0
+      ∧ urgent cfgHead s0 = true ∧ s0.rt = .stoppingRoots ∧ s0.t0 = some 0 ∧ s0.now = 0 ∧ s0.result = none :=
+    ⟨_, rfl, by decide, rfl, rfl, rfl, rfl⟩
+  obtain ⟨s0, h0, hu, hrt, ht0, hnow, hres⟩ := hp
+  refine ⟨s0, { s0 with now := s0.now + n }, h0, by simp [coopDelay, hu], ?_, ht0, by simp [hnow], hrt, hres⟩
+  simp only [step]
+  rw [if_pos ⟨by simp [hrt], hn⟩]
+
+/-! ### Non-vacuity: the hypotheses are met by non-trivial reachable states -/
+
+example : ∃ s, runC cfgHead init (fullRun true) = some s ∧ s.rt = .exited ∧ s.result = some .returned
     ∧ s.cleanupBegun = true ∧ s.ready = true ∧ s.acts = 4 ∧ s.t0 = some 320 ∧ s.exitAt = some 736
-    ∧ s.withdrawn 1 = true ∧ s.dm 0 = .ended :=
-  ⟨_, rfl, by decide, by decide, by decide, by decide, by decide, by decide, by decide, by decide, by decide⟩
+    ∧ s.withdrawn 1 = true ∧ s.withdrawnOk 1 = true ∧ s.dm 0 = .ended ∧ s.dm 1 = .ended ∧ s.tFail = none :=
+  ⟨_, rfl, by decide, by decide, by decide, by decide, by decide, by decide, by decide, by decide, by decide,
+   by decide, by decide, by decide⟩
 
-/-- a failed startup (hypothesis of `failed_startup_no_api`), run to its end: re-raised -/
-example : ∃ s, run cfgDemo init
+/-- a failed startup (hypothesis of `failed_startup_no_api`, and of `failure_to_stop_bound_partial` with
+    `tFail = some 0`), run to its end: re-raised -/
+example : ∃ s, runC cfgHead init
     [.scStartupBegin, .scStartupEnd .failed, .scStopCore, .coreEnd .cancelled, .scCoreStopped,
      .rootEnd .startupCleanup .failed, .rtStopRoots, .rootEnd .stopFlag .done, .rootEnd .ultimate .done,
+     .rootEnd .coreWatcher .cancelled,
      .rootEnd .daemonKiller .cancelled, .rootEnd .poster .cancelled, .rootEnd .admChain .cancelled,
      .rootEnd .admValidating .cancelled, .rootEnd .admMutating .cancelled, .rootEnd .admServer .cancelled,
      .rootEnd .resObserver .cancelled, .rootEnd .nsObserver .cancelled, .rootEnd .orchestrator .cancelled,
      .rtHungWait, .delay 320, .rtStopHung, .waiterEnd, .rtExit .raised] = some s
-    ∧ s.startupFailed = true ∧ s.startupRaised = true ∧ s.rt = .exited ∧ s.result = some .raised ∧ s.acts = 0 :=
-  ⟨_, rfl, by decide, by decide, by decide, by decide, by decide⟩
+    ∧ s.startupFailed = true ∧ s.startupRaised = true ∧ s.rt = .exited ∧ s.result = some .raised ∧ s.acts = 0
+    ∧ s.tFail = some 0 ∧ s.failWho = some (.root .startupCleanup) :=
+  ⟨_, rfl, by decide, by decide, by decide, by decide, by decide, by decide, by decide⟩
 
-/-- a worker of a root observer fails (hypotheses of `worker_failure_reaches_watcher` and of
-    `worker_failure_stops_all_partial`): the observer ends failed, nothing may linger -/
-example : ∃ s, run cfgDemo init
+/-- a worker of a root observer fails while the observer streams (hypotheses of
+    `worker_failure_reaches_watcher_partial` and of `worker_failure_stops_all`): the observer ends failed, the
+    failure is marked, cooperative time cannot pass -/
+example : ∃ s, runC cfgHead init
     [.scStartupBegin, .scStartupEnd .none, .setStarted, .ready, .enter .resObserver, .workerStart (.root .resObserver),
      .workerEnd 0 .failed, .rootStopping .resObserver true, .rootEnd .resObserver .failed] = some s
     ∧ s.werr (.root .resObserver) = true ∧ s.st (.root .resObserver) = .failed ∧ s.rt = .waiting
-    ∧ urgent cfgDemo s = true :=
-  ⟨_, rfl, by decide, by decide, by decide, by decide⟩
+    ∧ urgent cfgHead s = true ∧ s.tFail = some 0 ∧ s.failWho = some (.root .resObserver) :=
+  ⟨_, rfl, by decide, by decide, by decide, by decide, by decide, by decide⟩
 
 /-- a watcher meets HTTP 404, its key-mate is cancelled as redundant, both are spawned anew (hypotheses of
     `gone_is_not_a_failure`); nothing is escalated -/
-example : ∃ s, run { cfgAsIs with fixed := true } init
-    [.scStartupBegin, .scStartupEnd .none, .setStarted, .ready,
-     .enter .daemonKiller, .coreEnter, .enter .poster, .enter .admChain, .enter .admValidating, .enter .admMutating,
-     .enter .admServer, .enter .resObserver, .enter .nsObserver, .enter .orchestrator,
-     .subSpawn .peerWatcher, .subSpawn .pinger, .subGone 0, .subCancel 0, .subCancel 1, .subStopping 1 false,
-     .withdraw 1, .subEnd 1 .cancelled, .subEnd 0 .failed, .subSpawn .peerWatcher, .subSpawn .pinger, .delay 64] = some s
+example : ∃ s, runC cfgHead init
+    (startAll ++
+    [.subSpawn .peerWatcher, .subSpawn .pinger, .subGone 0, .subCancel 0, .subCancel 1, .subStopping 1 false,
+     .withdraw 1 true, .subEnd 1 .cancelled, .subEnd 0 .failed, .subSpawn .peerWatcher, .subSpawn .pinger,
+     .delay 64]) = some s
     ∧ s.gone 0 = true ∧ s.st (.sub 0) = .failed ∧ s.st (.root .orchestrator) = .running
-    ∧ s.creq (.root .orchestrator) = false ∧ s.orchErr = false ∧ s.nSubs = 4 ∧ s.now = 64 :=
+    ∧ s.creq (.root .orchestrator) = false ∧ s.orchErr = false ∧ s.nSubs = 4 ∧ s.now = 64 ∧ s.tFail = none :=
+  ⟨_, rfl, by decide, by decide, by decide, by decide, by decide, by decide, by decide, by decide⟩
+
+/-- the current tree on the witness prefix of F3: the orchestrator is cancelled by the failed watcher, cooperative time
+    cannot pass (hypotheses of `stream_failure_stops_all`), the failure is marked -/
+example : ∃ s, runC cfgHead init lingerPrefix = some s
+    ∧ s.st (.sub 0) = .failed ∧ s.st (.root .orchestrator) = .running ∧ s.creq (.root .orchestrator) = true
+    ∧ s.orchErr = true ∧ urgent cfgHead s = true ∧ s.tFail = some 0 ∧ s.failWho = some (.sub 0) :=
   ⟨_, rfl, by decide, by decide, by decide, by decide, by decide, by decide, by decide⟩
 
-/-- the `fixed` variant on the witness prefix of F3: the orchestrator is cancelled by the failed watcher,
-    time cannot pass (hypotheses of `stream_failure_stops_all`) -/
-example : ∃ s, run { cfgAsIs with fixed := true } init lingerPrefix = some s
-    ∧ s.st (.sub 0) = .failed ∧ s.st (.root .orchestrator) = .running ∧ s.creq (.root .orchestrator) = true
-    ∧ s.orchErr = true ∧ urgent { cfgAsIs with fixed := true } s = true :=
+/-- the proposed repair on the witness prefix of C20-F6 (hypotheses of `core_failure_stops_all`): cooperative time
+    cannot pass, the core tasks watcher fails, the cleanup runs, the error is re-raised -/
+example : ∃ s, runC cfgProposed init coreFail = some s ∧ s.core = .failed
+    ∧ s.st (.root .coreWatcher) = .running ∧ urgent cfgProposed s = true ∧ s.tFail = some 0 :=
+  ⟨_, rfl, by decide, by decide, by decide, by decide⟩
+
+example : ∃ s, runC cfgProposed init (coreFail ++
+    [.rootEnd .coreWatcher .failed, .rtStopRoots, .rootEnd .stopFlag .done,
+     .rootEnd .ultimate .done, .scWake, .rootEnd .poster .cancelled, .rootEnd .admChain .cancelled,
+     .rootEnd .admValidating .cancelled, .rootEnd .admMutating .cancelled, .rootEnd .admServer .cancelled,
+     .rootEnd .nsObserver .cancelled, .rootEnd .resObserver .cancelled, .rootStopping .orchestrator false,
+     .rootEnd .orchestrator .cancelled, .rootEnd .daemonKiller .cancelled, .scWaitRootsEnd, .scStopCore,
+     .scCoreStopped, .delay 32, .scCleanupEnd .none, .vaultClosed, .rootEnd .startupCleanup .failed,
+     .rtHungWait, .delay 320, .rtStopHung, .waiterEnd, .rtExit .raised]) = some s
+    ∧ s.rt = .exited ∧ s.result = some .raised ∧ s.cleanupBegun = true ∧ s.t0 = some 0 ∧ s.exitAt = some 352 :=
   ⟨_, rfl, by decide, by decide, by decide, by decide, by decide⟩
 
 end Kopf.C20
